@@ -300,7 +300,8 @@ def encodeDotList (l : List Bytes) : String :=
 (SetCommonPseudoHeaderOder), `k:<src>:<dst>` (Clone), `s:<client>:<request-level list|~>:<names on the wire>`
 (a request sent by that client; lists are `.`-joined hex) → for every send: the names on the wire that the
 effective header-order list names, in the order the specification of the sort puts them
-(`HeaderSortSpec.listedSorted`), and the effective pseudo-header-order list (`~` none). Model:
+(`HeaderSortSpec.listedSorted`), the effective header-order list and the effective
+pseudo-header-order list (`~` none). Model:
 `Req.OrderScope` (wrapper lists per client, copied by Clone; the oldest wrapper assigns last). -/
 def laneCloneOrder (args : List String) : String :=
   let rec go (st : Req.OrderScope.Store) (acc : List String) : List String → Option (List String)
@@ -332,7 +333,10 @@ def laneCloneOrder (args : List String) : String :=
           let showP := match ep with
             | none => "~"
             | some l => encodeDotList l
-          go st (("H=" ++ encodeDotList listed ++ "/P=" ++ showP) :: acc) rest
+          let showE := match eh with
+            | none => "~"
+            | some l => encodeDotList l
+          go st (("H=" ++ encodeDotList listed ++ "/E=" ++ showE ++ "/P=" ++ showP) :: acc) rest
         | _, _, _ => none
       | _ => none
   match go Req.OrderScope.fresh [] args with
